@@ -9,6 +9,7 @@ import (
 	"encoding/binary"
 	"fmt"
 	"github.com/btcsuite/btcwallet/chain"
+	"sort"
 	"sync"
 	"time"
 
@@ -322,6 +323,26 @@ func (c *Chain) InMempool(h chainhash.Hash) bool {
 		}
 	}
 	return false
+}
+
+// Orphaned returns every block the chain ever had that is not on the best
+// chain now, lowest first (ties in creation order are not defined).
+func (c *Chain) Orphaned() []*Block {
+	c.mu.Lock()
+	defer c.mu.Unlock()
+	var out []*Block
+	for _, b := range c.byHash {
+		if int(b.Height) >= len(c.best) || c.best[b.Height].Hash != b.Hash {
+			out = append(out, b)
+		}
+	}
+	sort.Slice(out, func(i, j int) bool {
+		if out[i].Height != out[j].Height {
+			return out[i].Height < out[j].Height
+		}
+		return out[i].Hash.String() < out[j].Hash.String()
+	})
+	return out
 }
 
 // ConfirmedIn returns the best-chain block containing the transaction.
